@@ -181,3 +181,19 @@ Definition select2 (c1 c2 : cfg) (p b : st) (ch : choice) : option (st * st) :=
   | ChBlock => match step c2 b CPollRecv with Some b' => Some (p, b') | None => None end
   | ChDefault => if ready p || ready b then None else Some (p, b)
   end.
+
+(* ---------- counting sends and reads along a run (K1: the sender stalls without a reader) ---------- *)
+(* actions that take something out of the channel (or end the scope): a consumer poll that receives, the drain,
+   cancel (which starts the drain) and the E4 exit.  CPollSkip (a poll that picked the other channel / default)
+   does not read THIS channel and is allowed in a "no reader" run. *)
+Definition is_recv (a : act) : nat := match a with CPollRecv | CDrainRecv => 1 | _ => 0 end.
+Definition is_send (a : act) : nat := match a with PSendA => 1 | _ => 0 end.
+Definition no_reader (a : act) : bool :=
+  match a with CPollRecv | CDrainRecv | CCancel | CFinish => false | _ => true end.
+Definition is_producer (a : act) : bool :=
+  match a with PTick | PDoneSel | PVerdict _ | PSendA | PClose => true | _ => false end.
+Fixpoint sends (acts : list act) : nat := match acts with [] => 0 | a :: r => is_send a + sends r end.
+Fixpoint recvs (acts : list act) : nat := match acts with [] => 0 | a :: r => is_recv a + recvs r end.
+(* free capacity of the channel (capacity 1) *)
+Definition free (s : st) : nat := match buf s with None => 1 | Some _ => 0 end.
+Definition is_some {A} (o : option A) : bool := match o with Some _ => true | None => false end.
